@@ -130,6 +130,8 @@ var provCatalogue = func() []provSpec {
 		provSpec{Name: "defaults+cors+claims", Extra: "cors"},
 		provSpec{Name: "defaults+minimal-config", Flags: 0x1f},
 		provSpec{Name: "defaults+interceptors", Extra: "interceptor"},
+		provSpec{Name: "defaults+forwarded-issuer", Extra: "fwddefault"},
+		provSpec{Name: "defaults+forwarded-issuer-custom-headers", Extra: "fwdissuer"},
 		provSpec{Name: "custom-token+interceptors", Mask: 1 << 1, Variant: "b", Extra: "interceptor"},
 	)
 	return c
@@ -138,7 +140,7 @@ var provCatalogue = func() []provSpec {
 func randProvSpec(r *rand.Rand) provSpec {
 	if r.IntN(3) == 0 {
 		p := provSpec{Name: "defaults"}
-		p.Extra = []string{"", "", "cors", "claims", "interceptor", "hostissuer", "fwdissuer"}[r.IntN(7)]
+		p.Extra = []string{"", "", "cors", "claims", "interceptor", "hostissuer", "fwdissuer", "fwddefault"}[r.IntN(8)]
 		if p.Extra != "" {
 			p.Name += "+" + p.Extra
 		}
@@ -378,6 +380,25 @@ type provPrint struct {
 	Preflight string            `json:"preflight"`
 	Keys      string            `json:"keys"`
 	Order     string            `json:"interceptor_order,omitempty"`
+	// Fwd: the issuer the discovery document names when the request carries both a Forwarded header and an
+	// X-Forwarded-Host header (which of them a provider follows is decided by ITS OWN issuer option only)
+	Fwd string `json:"issuer_under_forwarded_headers"`
+}
+
+const (
+	fwdStdHost    = "fwd-standard.c20.example"
+	fwdCustomHost = "fwd-custom.c20.example"
+)
+
+// expectedFwdIssuer: what a provider built from ps must name as issuer under the two headers.
+func expectedFwdIssuer(ps provSpec, host string) string {
+	switch ps.Extra {
+	case "fwddefault":
+		return "https://" + fwdStdHost
+	case "fwdissuer": // headers x-forwarded-host, forwarded - in that order
+		return "https://" + fwdCustomHost
+	}
+	return "https://" + host // static issuer and issuer from Host
 }
 
 // sharedInterceptors is a caller-owned interceptor list: each interceptor adds its name to a response header before it
@@ -428,6 +449,13 @@ func fingerprint(h http.Handler, host string, paths []string) provPrint {
 	d := serve(h, "GET", host, oidc.DiscoveryEndpoint, nil, nil)
 	fp.DiscBody = d.Body.String()
 	fp.Order = strings.Join(d.HeaderMap.Values(orderHeader), ",")
+	fd := serve(h, "GET", host, oidc.DiscoveryEndpoint, nil, func(r *http.Request) {
+		r.Header.Set("Forwarded", "host="+fwdStdHost+";proto=https")
+		r.Header.Set("X-Forwarded-Host", "host="+fwdCustomHost) // custom headers are read in Forwarded syntax
+	})
+	var fdoc map[string]any
+	_ = json.Unmarshal(fd.Body.Bytes(), &fdoc)
+	fp.Fwd, _ = fdoc["issuer"].(string)
 	var doc map[string]any
 	_ = json.Unmarshal(d.Body.Bytes(), &doc)
 	for f, k := range epDisc {
@@ -540,6 +568,8 @@ func (c *isoCase) buildProvider(ps provSpec) {
 		opts = append(opts, op.WithHttpInterceptors(sharedInterceptors...))
 	case "hostissuer":
 		mkIssuer = func() func(bool) (op.IssuerFromRequest, error) { return op.IssuerFromHost("") }
+	case "fwddefault":
+		mkIssuer = func() func(bool) (op.IssuerFromRequest, error) { return op.IssuerFromForwardedOrHost("") }
 	case "fwdissuer":
 		hs := []string{"x-forwarded-host", "forwarded"}
 		c.w.value(name+".issuer-headers", "C20:mutation:WithIssuerFromCustomHeaders.headers", func() any { return hs })
@@ -579,6 +609,12 @@ func (c *isoCase) buildProvider(ps provSpec) {
 		fp := fingerprint(inst.h[r], inst.host, c.paths)
 		inst.fp[r] = fp.String()
 		inst.lite[r] = fingerprint(inst.h[r], inst.host, nil).String()
+		if want := expectedFwdIssuer(ps, inst.host); r == 0 && fp.Fwd != want {
+			c.violation("C20:isolation:IssuerFromForwardedOrHost.headers", fmt.Sprintf("a provider built with issuer option %q names %q as issuer for a request carrying Forwarded host=%s and X-Forwarded-Host %s; its own option asks for %q", orDefault(ps.Extra), fp.Fwd, fwdStdHost, fwdCustomHost, want),
+				map[string]any{"issuer_named": fp.Fwd, "expected": want, "provider": ps})
+		} else if r == 0 && (ps.Extra == "fwddefault" || ps.Extra == "fwdissuer") {
+			c.run.Observed("iso:forwarded-issuer-judged:" + ps.Extra)
+		}
 		if ps.Extra == "interceptor" && r == 0 {
 			switch {
 			case fp.Order == "":
